@@ -141,6 +141,9 @@ pub fn compute_grid_layout<Tree: LayoutGridContainer>(
         tree.child_ids(node)
             .map(|child_node: NodeId| tree.get_grid_child_style(child_node))
             .filter(|style| style.box_generation_mode() != BoxGenerationMode::None)
+            // Absolutely positioned children do not create implicit tracks: a line of theirs that does not exist
+            // in the grid is treated as `auto` when they are positioned (https://www.w3.org/TR/css-grid-1/#abspos-items)
+            .filter(|style| style.position() != Position::Absolute)
     };
     let child_styles_iter = get_child_styles_iter(node);
 
@@ -551,7 +554,7 @@ pub fn compute_grid_layout<Tree: LayoutGridContainer>(
                 .into_origin_zero(final_col_counts.explicit)
                 .resolve_absolutely_positioned_grid_tracks()
                 .map(|maybe_grid_line| {
-                    maybe_grid_line.map(|line: OriginZeroLine| line.into_track_vec_index(final_col_counts))
+                    maybe_grid_line.and_then(|line: OriginZeroLine| line.try_into_track_vec_index(final_col_counts))
                 });
             // Convert grid-row-{start/end} into Option's of indexes into the row vector
             // The Option is None if the style property is Auto and an unresolvable Span
@@ -560,7 +563,7 @@ pub fn compute_grid_layout<Tree: LayoutGridContainer>(
                 .into_origin_zero(final_row_counts.explicit)
                 .resolve_absolutely_positioned_grid_tracks()
                 .map(|maybe_grid_line| {
-                    maybe_grid_line.map(|line: OriginZeroLine| line.into_track_vec_index(final_row_counts))
+                    maybe_grid_line.and_then(|line: OriginZeroLine| line.try_into_track_vec_index(final_row_counts))
                 });
 
             let grid_area = Rect {
